@@ -158,3 +158,13 @@ Example C09_example_store_eof :
          [(0%nat, 0, 3%nat); (0%nat, 0, 3%nat); (0%nat, 0, 3%nat)]) =
   [Some FEIO; Some FEIO; Some (FData [5; 6; 0]%N)].
 Proof. vm_compute. split; reflexivity. Qed.
+
+(* A FUSE read that spans a chunk boundary and whose LATER chunk fails is answered EIO although Read had already copied
+   the first chunk and moved on; the identical request retried on the same handle is positioned again (the handle seeks
+   for every request) and returns exactly the requested bytes.  (Covered by C09_fuse_read_refines_blob for every
+   history; this is the one a "skip the seek when the request continues the last one" shortcut would break.) *)
+Example C09_example_retry_after_failed_later_chunk :
+  snd (fuse_run ex_store (new_null_chunk ex_H 2) ex_idx (fuse_open ex_idx 1)
+         [(0%nat, 0, 7%nat); (0%nat, 0, 7%nat); (0%nat, 1, 1%nat); (0%nat, 0, 7%nat)]) =
+  [Some FEIO; Some (FData ex_blob); Some (FData [6]%N); Some (FData ex_blob)].
+Proof. vm_compute. reflexivity. Qed.
